@@ -269,6 +269,10 @@ struct LoadStoreInstructions {
   InstId pair_inst_id;
 };
 
+// The greatest SP adjustment that can be folded into the first store / last load of the register save area - pre-index
+// and post-index forms reach [-256, 255] (STR|LDR) and [-512, 504] (STP|LDP of X|D registers).
+static constexpr uint32_t kMaxPrePostIndexAdjustment = 256u;
+
 struct PrologEpilogInfo {
   struct RegPair {
     uint8_t ids[2];
@@ -343,7 +347,8 @@ ASMJIT_FAVOR_SIZE Error EmitHelper::emit_prolog(const FuncFrame& frame) {
   PrologEpilogInfo pei;
   ASMJIT_PROPAGATE(pei.init(frame));
 
-  static const Support::Array<Reg, 2> group_regs = {{ x0, d0 }};
+  // Vector registers are saved as Q registers if the calling convention uses 16-byte save/restore slots.
+  const Support::Array<Reg, 2> group_regs = {{ x0, frame.save_restore_reg_size(RegGroup::kVec) >= 16u ? Reg(q0) : Reg(d0) }};
   static const Support::Array<LoadStoreInstructions, 2> group_insts = {{
     { Inst::kIdStr  , Inst::kIdStp   },
     { Inst::kIdStr_v, Inst::kIdStp_v }
@@ -355,6 +360,13 @@ ASMJIT_FAVOR_SIZE Error EmitHelper::emit_prolog(const FuncFrame& frame) {
   }
 
   uint32_t adjust_initial_offset = pei.size_total;
+
+  // Pre-index addressing of the first store only reaches -256 (STR) or -512 (STP) - adjust SP separately if the
+  // area required to save registers is larger than that.
+  if (adjust_initial_offset > kMaxPrePostIndexAdjustment) {
+    ASMJIT_PROPAGATE(emitter->sub(sp, sp, adjust_initial_offset));
+    adjust_initial_offset = 0;
+  }
 
   for (RegGroup group : Support::enumerate(RegGroup::kGp, RegGroup::kVec)) {
     const PrologEpilogInfo::GroupData& data = pei.groups[group];
@@ -416,13 +428,21 @@ ASMJIT_FAVOR_SIZE Error EmitHelper::emit_epilog(const FuncFrame& frame) {
   PrologEpilogInfo pei;
   ASMJIT_PROPAGATE(pei.init(frame));
 
-  static const Support::Array<Reg, 2> group_regs = {{ x0, d0 }};
+  // Vector registers are restored as Q registers if the calling convention uses 16-byte save/restore slots.
+  const Support::Array<Reg, 2> group_regs = {{ x0, frame.save_restore_reg_size(RegGroup::kVec) >= 16u ? Reg(q0) : Reg(d0) }};
   static const Support::Array<LoadStoreInstructions, 2> group_insts = {{
     { Inst::kIdLdr  , Inst::kIdLdp   },
     { Inst::kIdLdr_v, Inst::kIdLdp_v }
   }};
 
   uint32_t adjust_initial_offset = pei.size_total;
+  uint32_t adjust_final_offset = 0;
+
+  // Post-index addressing of the last load has the same limits as pre-index addressing used by the prolog.
+  if (adjust_initial_offset > kMaxPrePostIndexAdjustment) {
+    adjust_final_offset = adjust_initial_offset;
+    adjust_initial_offset = 0;
+  }
 
   if (frame.has_stack_adjustment()) {
     uint32_t adj = frame.stack_adjustment();
@@ -469,6 +489,10 @@ ASMJIT_FAVOR_SIZE Error EmitHelper::emit_epilog(const FuncFrame& frame) {
 
       mem.reset_offset_mode();
     }
+  }
+
+  if (adjust_final_offset) {
+    ASMJIT_PROPAGATE(emitter->add(sp, sp, adjust_final_offset));
   }
 
   ASMJIT_PROPAGATE(emitter->ret(x30));
